@@ -145,6 +145,16 @@ func (ch c09) Run(c *core.Ctx) {
 			in = append(in, pg.Parse("", q, nil)...)
 			in = append(in, pg.Bind("", "", nil, nil, t.RFmts)...)
 			in = append(in, pg.Describe('P', "")...)
+			if i%3 == 0 {
+				// another portal of the same statement with the opposite format codes, bound
+				// before the first one is executed: the announced formats must still hold
+				other := make([]int16, len(t.OIDs))
+				for j := range other {
+					other[j] = 1 - fmtFor(t.RFmts, j)
+				}
+				in = append(in, pg.Bind("other", "", nil, nil, other)...)
+				c.Count("interleaved_second_portal", 1)
+			}
 			in = append(in, pg.Execute("", 0)...)
 			in = append(in, pg.Sync()...)
 		}
